@@ -161,3 +161,58 @@ Definition spec (a b : value) (o : obs) : bool :=
   match math_equal a b with Some e => Bool.eqb (o_ab o) e | None => true end &&
   match math_equal b a with Some e => Bool.eqb (o_ba o) e | None => true end &&
   (Nat.eqb (length (o_get o)) 6) && forallb (getter_ok a) (o_get o).
+
+(* -------- scenarios: WHERE the pointer-like payloads live --------
+   A MockNamedValue stores only the address of a string / memory buffer.  SPair: every payload in an allocation of its own.
+   SAliasMem / SAliasStr: both values point into ONE allocation `ar` (the same start address with different lengths,
+   windows overlapping at an offset, the identical pointer and length; a char pointer into the middle of the other string).
+   For these the model below works on ADDRESSES (offsets into the arena), as the code does; the property speaks of
+   contents only (sc_values), so `sc_spec` reads the contents and never the offsets. *)
+Definition slice (o l : nat) (ar : list N) : list N := firstn l (skipn o ar).
+
+Inductive scenario :=
+| SPair (a b : value)
+| SAliasMem (ar : list N) (oa la ob lb : nat)      (* setMemoryBuffer(ar+oa, la) / setMemoryBuffer(ar+ob, lb) *)
+| SAliasStr (ar : list N) (oa ob : nat).           (* setValue((const char* )ar+oa) / (ar+ob); the arena is followed by one NUL *)
+
+Definition sc_valid (s : scenario) : bool :=
+  match s with
+  | SPair a b => valid a && valid b
+  | SAliasMem ar oa la ob lb => Nat.leb (oa + la) (length ar) && Nat.leb (ob + lb) (length ar)
+  | SAliasStr ar oa ob => Nat.leb oa (length ar) && Nat.leb ob (length ar)
+  end.
+
+(* the contents the two values denote: all the property speaks about *)
+Definition sc_values (s : scenario) : value * value :=
+  match s with
+  | SPair a b => (a, b)
+  | SAliasMem ar oa la ob lb => (VMem (slice oa la ar), VMem (slice ob lb ar))
+  | SAliasStr ar oa ob => (VStr (Some (skipn oa ar)), VStr (Some (skipn ob ar)))
+  end.
+
+(* SimpleString::MemCmp(p, q, n) == 0 on one memory: while (n--) if ( *p != *q) return difference; else ++p, ++q *)
+Fixpoint memcmp_eq (mem : list N) (p q n : nat) : bool :=
+  match n with
+  | O => true
+  | S n' => if N.eqb (nth p mem 0%N) (nth q mem 0%N) then memcmp_eq mem (S p) (S q) n' else false
+  end.
+(* the "const unsigned char*" branch of equals: size_ != p.size_ -> false, else MemCmp over size_ bytes *)
+Definition mem_equals_at (mem : list N) (pa la pb lb : nat) : bool :=
+  if negb (Z.of_nat la =? Z.of_nat lb) then false else memcmp_eq mem pa pb la.
+(* SimpleString(const char* ) copies from the address up to the first NUL; operator== compares the copies *)
+Definition cstr_at (mem : list N) (p : nat) : list N := cut_nul (skipn p mem).
+Definition str_equals_at (mem : list N) (pa pb : nat) : bool := bytes_eqb (cstr_at mem pa) (cstr_at mem pb).
+
+Definition no_getter_applies : list (option Z) := map (fun _ => None) all_getters.
+
+Definition sc_run (s : scenario) : obs :=
+  match s with
+  | SPair a b => run a b
+  | SAliasMem ar oa la ob lb =>
+      {| o_ab := mem_equals_at ar oa la ob lb; o_ba := mem_equals_at ar ob lb oa la; o_get := no_getter_applies |}
+  | SAliasStr ar oa ob =>
+      let mem := ar ++ [0%N] in
+      {| o_ab := str_equals_at mem oa ob; o_ba := str_equals_at mem ob oa; o_get := no_getter_applies |}
+  end.
+
+Definition sc_spec (s : scenario) (o : obs) : bool := spec (fst (sc_values s)) (snd (sc_values s)) o.
